@@ -7,6 +7,7 @@ import (
 	"os"
 	"strings"
 	"testing"
+	"time"
 
 	"pgregory.net/rapid"
 
@@ -24,7 +25,7 @@ func TestMain(m *testing.M) {
 
 var recSel = ev.New("C02", "chain-selection",
 	"block trees of 3-40 blocks on synthetic parameter families (flat / no-BIP34 / variable-work) with up to 3 invalid blocks (context-free, context, connect-invalid) at any depth and spending transactions; "+
-		"delivery histories: tree order with out-of-order picks (orphans), duplicates, header-only and header-first deliveries, InvalidateBlock/ReconsiderBlock; "+
+		"delivery histories: tree order with out-of-order picks (orphans), duplicates, header-only and header-first deliveries, InvalidateBlock/ReconsiderBlock; in a third of the cases the node's network-adjusted clock runs 61-70 minutes ahead of its own; "+
 		"oracle: sequential reference model of chain selection (most cumulative work among fully delivered valid chains, first-active wins ties) checked after every step, "+
 		"all views (snapshot, height<->hash, membership, block bytes, chain tips) against the model and the notification stream folded from genesis; "+
 		"non-trivial = the history caused a reorganisation, an orphan drain, a failed connect or a tip move by invalidate/reconsider; distinct by (tree, history) hash",
@@ -41,6 +42,11 @@ func runHistory(t *rapid.T, tr *ce.Tree, steps []ce.Step, opt ce.EnvOpt) (*ce.Se
 		t.Fatalf("VERIF-INFRA: %v", err)
 	}
 	defer env.Close()
+	// the node's network-adjusted clock may run ahead of its own clock (up to 70 minutes are accepted
+	// from peers): nothing a delivery history does depends on which of the two clocks is read
+	if rapid.IntRange(0, 2).Draw(t, "adjustedClockAhead") == 0 {
+		env.Clock.Now = time.Now().Add(time.Duration(rapid.IntRange(61, 70).Draw(t, "minutesAhead")) * time.Minute)
+	}
 	sel := ce.NewSel(tr)
 	hist := func(i int) string {
 		var sb strings.Builder
